@@ -19,7 +19,7 @@ from coqfmt import zraw, b, lst, tup, s as cstr
 
 replay = common.generic_replay
 
-IMPORTS = 'Graph PyHash Fingerprint FingerprintCGR LinearSmiles FingerprintVec MorganSmiles'
+IMPORTS = 'Graph PyHash Fingerprint FingerprintCGR LinearSmiles FingerprintVec MorganSmiles LinearSpell LinearSmilesFull'
 EXTRA = '''
 Import ListNotations.
 Open Scope Z_scope.
@@ -103,6 +103,17 @@ Definition msh_ok (t : list (list Z * string)) (g : mol) (lo hi : Z) (e : pyres 
   | Err x, Err y => pyexn_eqb x y
   | _, _ => false
   end.
+(* round 3: the spelling of atoms / bonds inside the model (Model.LinearSpell) and the functions of the molecule alone *)
+Definition fa_all_ok (g : mol) (t : list (Z * string)) : bool :=
+  forallb (fun ns => pyres_eqb String.eqb (lhs_fa_res g (fst ns)) (Ok (snd ns)) && String.eqb (lhs_fa g (fst ns)) (snd ns)) t.
+Definition fb_all_ok (g : mol) (t : list (Z * list (Z * string))) : bool :=
+  forallb (fun nl => forallb (fun ms => String.eqb (lhs_fb g (fst nl) (fst ms)) (snd ms)) (snd nl)) t.
+Definition lhsm_model_ok (g : mol) (lo hi : Z) (chs : list path) (nbp : Z) (e : list (Z * list string)) : bool :=
+  sd_ok (linear_hash_smiles_model hash_ztuple_fast g chs nbp) e.
+Definition lsh_model_ok (g : mol) (lo hi : Z) (chs : list path) (nbp : Z) (e : list (string * list Z)) : bool :=
+  strd_ok (linear_smiles_hash_model hash_ztuple_fast g chs nbp) e.
+Definition lhsmf_model_ok (g : mol) (lo hi : Z) (chs : list path) (nbp : Z) (e : list (Z * list string)) : bool :=
+  sd_ok (linear_hash_smiles_fixed_model hash_ztuple_fast g chs nbp) e.
 (* CGR containers (Model.FingerprintCGR) *)
 Definition cwf_ok (c : cgr) : bool := wf_cgr c.
 Definition cids_ok (c : cgr) (e : list (Z * Z)) : bool := dict_eqb (cgr_atom_identifiers c) e.
@@ -366,6 +377,8 @@ def mol_cases(ck, tag, g, m, rng):
         return spent[0] + lanes <= budget
     add(f'wf_mol {g}', 'wf_mol', ())
     add(f'ids_ok {g} {d}', '_atom_identifiers', (), 4 * n)
+    add(f'fa_all_ok {g} fa{g}', '_format_atom(n, None, stereo=False) of every atom', ())
+    add(f'fb_all_ok {g} fb{g}', '_format_bond(n, m, None, stereo=False, aromatic=False) of every bond', ())
     radii = RADII if small else [r for r in RADII if r[1] <= 4]
     pick = rng.sample(radii, 4 if small else 2) + rng.sample(BAD_RADII, 1)
     idvals = list(m._atom_identifiers.values())
@@ -407,6 +420,13 @@ def mol_cases(ck, tag, g, m, rng):
                 exp = m.linear_hash_smiles(lo, hi, nbp)
                 add(f'lhsm_ok fa{g} fb{g} {d} {a} {pl(order)} {zraw(nbp)} {lst([tup(zx(k), lst([cstr(x) for x in v])) for k, v in exp.items()])}',
                     'linear_hash_smiles (over the observed set order and spellings)', (lo, hi, nbp), lanes)
+                if small:
+                    # the same with the spelling computed by the model (Model.LinearSpell): functions of the molecule and of the set order only
+                    add(f'lhsm_model_ok {a} {pl(order)} {zraw(nbp)} {lst([tup(zx(k), lst([cstr(x) for x in v])) for k, v in exp.items()])}',
+                        'linear_hash_smiles (model spelling)', (lo, hi, nbp), lanes + 4 * n)
+                    lsh = m.linear_smiles_hash(lo, hi, nbp)
+                    add(f'lsh_model_ok {a} {pl(order)} {zraw(nbp)} {lst([tup(cstr(k), zl(v)) for k, v in lsh.items()])}',
+                        'linear_smiles_hash (model spelling)', (lo, hi, nbp), lanes + 4 * n)
                 expf = fixed_lhs(m, lo, hi, nbp)
                 add(f'lhsmf_ok fa{g} fb{g} {d} {a} {pl(order)} {zraw(nbp)} {lst([tup(zx(k), lst([cstr(x) for x in v])) for k, v in expf.items()])}',
                     'suggested fix of linear_hash_smiles (reference implementation of the check)', (lo, hi, nbp), lanes)
@@ -910,18 +930,18 @@ def search_cgr(ck, tag, c, rng):
 # exhaustive small space: EVERY labelled graph on 1..4 atoms (numbers 1..n, elements C N O S, bond orders 1 8 2 4 3 8 by pair) x EVERY
 # pair of radii in -1..5: chain set; plus fragments / hash set / Morgan dictionaries on the documented radii
 
-def all_small_graphs():
+def all_small_graphs(max_n=4):
     from chython import MoleculeContainer
     from chython.periodictable import Element
-    for n in (1, 2, 3, 4):
+    for n in range(1, max_n + 1):
         pairs = list(itertools.combinations(range(1, n + 1), 2))
         for mask in range(2 ** len(pairs)):
             m = MoleculeContainer()
             for i in range(1, n + 1):
-                m.add_atom(Element.from_atomic_number((6, 7, 8, 16)[i - 1])(), i)
+                m.add_atom(Element.from_atomic_number((6, 7, 8, 16, 15)[i - 1])(), i)
             for k, (i, j) in enumerate(pairs):
                 if mask >> k & 1:
-                    m.add_bond(i, j, (1, 8, 2, 4, 3, 8)[k])       # every bond order the containers allow occurs
+                    m.add_bond(i, j, (1, 8, 2, 4, 3, 8, 1, 2, 8, 1)[k])       # every bond order the containers allow occurs
             yield f'graph{n}:{mask}', m
 
 
@@ -930,12 +950,13 @@ def corr_exhaustive(ck):
     quick = ck.tier == 'quick'
     grid = [(lo, hi) for lo in range(-1, 6) for hi in range(-1, 6)]
     defs, cases, meta = [], [], []
-    for i, (tag, m) in enumerate(all_small_graphs()):
+    for i, (tag, m) in enumerate(all_small_graphs(4 if quick else 5)):
         g = f'x{i}'
         n = len(m._atoms)
         defs.append(f'Definition {g} : mol := {coqmol.mol_term(m)}.\n')
-        # quick: the whole grid for up to 3 atoms, a third of it (seeded) for the 64 graphs on 4 atoms
-        radii = grid if (n <= 3 or not quick) else rng.sample(grid, len(grid) // 3)
+        # quick: the whole grid for up to 3 atoms, a third of it (seeded) for the 64 graphs on 4 atoms;
+        # thorough: the whole grid up to 4 atoms and 3 seeded pairs for each of the 1024 graphs on 5 atoms
+        radii = rng.sample(grid, 3) if n == 5 else grid if (n <= 3 or not quick) else rng.sample(grid, len(grid) // 3)
         for lo, hi in radii:
             cases.append(f'chains_ok {g} {zraw(lo)} {zraw(hi)} {pl(sorted(m._chains(lo, hi)))}')
             meta.append((tag, '_chains(set)', (lo, hi)))
@@ -951,14 +972,14 @@ def corr_exhaustive(ck):
         meta.append((tag, '_morgan_hash_dict', (lo, hi)))
         ck.case(meta[-1])
     ck.count('exhaustive:cases', len(cases))
-    ok, failing, log = coqcases.run_cases('c17x', IMPORTS, cases, extra=EXTRA + ''.join(defs), shard=max(1, (len(cases) + 3) // 4))
+    ok, failing, log = coqcases.run_cases('c17x', IMPORTS, cases, extra=EXTRA + ''.join(defs), shard=max(1, (len(cases) + 3) // 4) if quick else 700)
     good = ok and not failing
-    ck.oblige(f'correspondence (exhaustive): _chains on every labelled graph with 1..4 atoms x radii in -1..5 ({"a seeded third of the grid for 4 atoms" if quick else "whole grid"}), '
+    ck.oblige(f'correspondence (exhaustive): _chains on every labelled graph with 1..4 atoms x radii in -1..5 ({"a seeded third of the grid for 4 atoms" if quick else "whole grid, plus every labelled graph on 5 atoms x 3 seeded pairs"}), '
               f'linear_hash_set and _morgan_hash_dict on each graph == Coq model on {len(cases)} cases', good, 'correspondence', log or str([meta[i] for i in failing[:5]]))
     ck.extra['exhaustive_cases'] = len(cases)
     if not good:
         ck.unchecked('correspondence Fingerprint model vs chython on the exhaustive small space', log[-1500:], [repr(meta[i]) for i in failing[:20]])
-    by_tag = {tag: (None, m) for tag, m in all_small_graphs()}
+    by_tag = {tag: (None, m) for tag, m in all_small_graphs(4 if quick else 5)}
     return good, [meta[i] for i in failing], by_tag
 
 
@@ -1526,7 +1547,8 @@ def run(ck):
         phase[name] = round(time.time() - t0, 1)
         return r
 
-    proved = timed('proof steps', common.standard_proof_steps, ck, [])
+    # tables read by Model.LinearSpell (element symbols, charge_str, organic_set, B C N P S) and the constants of Gen.FingerprintConsts
+    proved = timed('proof steps', common.standard_proof_steps, ck, ['elements', 'smiles_tables', 'fingerprints'])
     tied_hash = timed('correspondence PyHash', corr_pyhash, ck)
     tied_fold, bad_fold = timed('correspondence folding', corr_folding, ck)
     tied_x, bad_x, by_tag_x = timed('correspondence exhaustive', corr_exhaustive, ck)
